@@ -54,6 +54,38 @@ example (h : Generated.lyjsonExpLeadingZeroFixed = false) :
   rw [he]
   rfl
 
+-- AUDIT: the example above assumes `Generated.lyjsonExpLeadingZeroFixed = false`; on the tree as generated now the
+-- switch is `true` (F14 fixed) and the example says nothing.  Its counterpart for the fixed source follows: the same
+-- input now stores `5`, NUL into 2 bytes, and `0.10203e3` goes through the rewritten branch (7 stores into 7 bytes) —
+-- hypotheses of `json_exp_number_in_bounds` met on both, conclusion instantiated.  See the AUDIT note in
+-- `Props/C05JsonNum.lean`.
+
+/-- non-vacuity (audit): `json_exp_number_in_bounds` at the F14 witnesses on the fixed source -/
+example (h : Generated.lyjsonExpLeadingZeroFixed = true) :
+    ∃ r x, number [48, 46, 53, 101, 49] = .ok r ∧ r.exp = some x ∧ x.alloc = 2 ∧ x.writes = [(0, 53), (1, 0)] := by
+  have hc : compose [48, 46, 53, 101, 49] (prep [48, 46, 53, 101, 49] 3 (expVal [48, 46, 53, 101, 49] 3)) =
+      composeB4 [48, 46, 53, 101, 49] (prep [48, 46, 53, 101, 49] 3 (expVal [48, 46, 53, 101, 49] 3)) := by
+    unfold compose; rw [h]; rfl
+  have hb : composeB4 [48, 46, 53, 101, 49] (prep [48, 46, 53, 101, 49] 3 (expVal [48, 46, 53, 101, 49] 3))
+      = (1, [(0, 53)], [1, 0]) := by decide
+  refine ⟨{ value := [53], consumed := 5, dyn := true, exp := some { bufLen := 1, writes := [(0, 53), (1, 0)], lens := [1, 0] } }, _, ?_, rfl, rfl, rfl⟩
+  have hn : number [48, 46, 53, 101, 49] = (match expNumber [48, 46, 53, 101, 49] 3 with
+      | .error x => .error x
+      | .ok r => .ok { value := r.value, consumed := 5, dyn := true, exp := some r }) := by rfl
+  rw [hn]
+  have he : expNumber [48, 46, 53, 101, 49] 3 = .ok { bufLen := 1, writes := [(0, 53), (1, 0)], lens := [1, 0] } := by
+    unfold expNumber
+    simp only [hc, hb]
+    rfl
+  rw [he]
+  rfl
+
+/-- non-vacuity (audit): the theorem itself at `-12.50e-3,` (independent of the switch): all 8 stores below 8, both
+    lengths non-negative -/
+example : ∀ r x, number [45, 49, 50, 46, 53, 48, 101, 45, 51, 44] = .ok r → r.exp = some x →
+    (∀ w ∈ x.writes, w.1 < x.alloc) ∧ (∀ l ∈ x.lens, 0 ≤ l) :=
+  fun r x h hx => json_exp_number_in_bounds _ r x h hx
+
 /-- **`ly_getutf8` never reads past the terminator.**  The instrumented reader computes exactly `Utf8.getUtf8`, and
     every index it reads is preceded by non-NUL bytes only; so on a NUL-terminated buffer no read index exceeds the
     length of the C string, whatever (malformed, truncated) bytes it holds. -/
@@ -83,6 +115,17 @@ example : ({ Lex.JsonStrBuf.St.init with pending := List.replicate 150 97 } : Le
 /-- non-vacuity: a value that needs the buffer (`ab\n"` → `ab␊`) -/
 example : Lex.JsonStrBuf.parseI [97, 98, 92, 110, 34, 44] = some (.ok ([97, 98, 10], [44])) := by rfl
 
+set_option maxRecDepth 100000 in
+/-- non-vacuity (audit): through the whole lexer with a growth step — 30 bytes, `\n`, 130 bytes, `\t`: the second escape
+    finds `len + offset + 4 ≥ size` and reallocates -/
+example : Lex.JsonStrBuf.parseI (List.replicate 30 97 ++ [92, 110] ++ List.replicate 130 98 ++ [92, 116, 34, 44])
+    = some (.ok (List.replicate 30 97 ++ [10] ++ List.replicate 130 98 ++ [9], [44])) := by rfl
+
+/-- non-vacuity (audit): the guards are live — a store behind the allocation makes the instrumented step `none`, in
+    both instrumented lexers (so `parseI … = some …` does say that no such store happens) -/
+example : ({ hasBuf := true, out := List.replicate 24 97, size := 152, alloc := 24, pending := [] } : Lex.JsonStrBuf.St).put [10] = none
+    ∧ ({ hasBuf := true, out := List.replicate 24 97, size := 24, pending := [] } : Lex.XmlBuf.St).put [10] = none := by decide
+
 /-- **`lyxml_parse_value`: the output buffer is never overrun.**  The same for XML character data and attribute
     values: `lyxml_parse_value_use_buf` (first `BUFSIZE`, then steps of `BUFSIZE_STEP` until
     `len + offset + need_space < size`, with `need_space = 4` for a reference and the CDATA length for a CDATA
@@ -95,5 +138,10 @@ theorem xml_value_buffer_safe (endc : UInt8) (inp : Bytes) :
 /-- non-vacuity: `a&lt;<![CDATA[x]]>&#65;<` → `a<xA` -/
 example : Lex.XmlBuf.parseI 60 [97, 38, 108, 116, 59, 60, 33, 91, 67, 68, 65, 84, 65, 91, 120, 93, 93, 62, 38, 35, 54, 53, 59, 60] =
     some (.ok ([97, 60, 120, 65], false, [60])) := by rfl
+
+set_option maxRecDepth 100000 in
+/-- non-vacuity (audit): with a growth step — 30 bytes, `&lt;`, 130 bytes, `&#65;` -/
+example : Lex.XmlBuf.parseI 60 (List.replicate 30 97 ++ [38, 108, 116, 59] ++ List.replicate 130 98 ++ [38, 35, 54, 53, 59, 60])
+    = some (.ok (List.replicate 30 97 ++ [60] ++ List.replicate 130 98 ++ [65], false, [60])) := by rfl
 
 end LyModel.Props.C05
